@@ -56,6 +56,22 @@ type Options struct {
 	// allShortestPaths) instead of one deterministic representative. A checker validates a system under
 	// test that returns any single shortest path by testing membership in this superset.
 	ShortestPathAll bool
+
+	// Observe, when set, receives facts about how far the evaluated query's result depends on an order that
+	// openCypher leaves open. They are exact for the evaluated graph, unlike comparing a few Shuffle values,
+	// which can agree by chance.
+	Observe *Observation
+}
+
+// Observation is filled in by an evaluation run with Options.Observe.
+type Observation struct {
+	// OrderTies: some ORDER BY (of a WITH or of the RETURN) met two rows with equal sort keys that differ in a
+	// projected column: their relative order is unspecified.
+	OrderTies bool
+
+	// ArbitraryWindow: some SKIP / LIMIT cut through rows whose order is unspecified (no ORDER BY and the rows are
+	// not all equal, or an ORDER BY with ties among differing rows): WHICH rows pass is unspecified.
+	ArbitraryWindow bool
 }
 
 // Unsupported is returned for model constructs outside the implemented fragment. It is never a
